@@ -237,9 +237,15 @@ class Engine:
             if tag == "objlist":
                 return self.fresh_objlist(ty[1], hint)
             if tag == "obj":
-                oid = "%s!%d" % (hint, next(self.fresh_id))
-                self._pending_objects.append((oid, ty[1]))
-                return Obj(oid, ty[1]), []
+                oid = "%s!%d" % (hint.replace(".", "_"), next(self.fresh_id))
+                fields, cons = {}, []
+                for fld, fty in self.reg.fields_of(ty[1]).items():
+                    v, cs = self.fresh(fty[1:] if isinstance(fty, str) and fty.startswith("?") else fty,
+                                       "%s.%s" % (oid, fld))
+                    fields[fld] = v
+                    cons += cs
+                self._pending_objects.append((oid, fields))
+                return Obj(oid, ty[1]), cons
             if tag == "dict":
                 items, cons = {}, []
                 for k, t in ty[1].items():
@@ -786,6 +792,9 @@ class Engine:
         return self.getattr_(base, n.attr, st, n)
 
     def getattr_(self, base, attr, st, node):
+        if isinstance(base, Opt) and isinstance(base.val, Obj):
+            self.oblige(st, Not(base.isnone), "attribute_of_none", node)
+            base = base.val
         if isinstance(base, Obj):
             fields = st.heap[base.oid]
             if attr in fields:
@@ -1058,6 +1067,17 @@ class Engine:
                 f = self.reg.classes[base.lst.cls].index_field
                 return simp(z3.Select(z3.Select(base.lst.arrays[f], Z(base.row)), Z(idx)))
             return self.row_call(st, base, "__getitem__", [idx], {}, node)
+        if isinstance(base, Opt) and isinstance(base.val, Obj):
+            self.oblige(st, Not(base.isnone), "none_is_not_subscriptable", node)
+            base = base.val
+        if isinstance(base, Obj) and self.reg.method_contract(base.cls, "__getitem__") is not None:
+            if st.spec_mode:
+                f = self.reg.classes[base.cls].index_field
+                lst = st.heap[base.oid][f]
+                if isinstance(lst, EmptyList):
+                    return 0
+                return self.list_get(lst, idx)
+            return self.call_contract(self.reg.method_contract(base.cls, "__getitem__"), [base, idx], {}, st, node)
         if isinstance(base, DictV):
             key = self.dict_key(idx)
             if key is not None:
@@ -1354,6 +1374,9 @@ class Engine:
             return self.call_contract(c, [v], {}, st, n)
         if isinstance(v, Obj):
             c = self.reg.method_contract(v.cls, "__len__")
+            if c is not None and st.spec_mode and self.reg.classes[v.cls].index_field:
+                lst = st.heap[v.oid][self.reg.classes[v.cls].index_field]
+                return 0 if isinstance(lst, EmptyList) else lst.length
             if c is not None:
                 return self.call_contract(c, [v], {}, st, n)
         raise Unsupported("len of %s" % type(v).__name__)
